@@ -134,7 +134,32 @@ impl CompositeCone<F> {
     pub fn step_length(&mut self, dz: &[F], ds: &[F], z: &[F], s: &[F], settings: &CoreSettings<F>, alphamax: F) -> (r: (F, F))
         ensures 0real <= r.0.v() <= alphamax.v(), 0real <= r.1.v() <= alphamax.v(),
     { unimplemented!() }
+    // margin(z): how far inside the (primal or dual) cone z is, in units of the cone's identity element e: z is strictly
+    // inside iff margin > 0.  ASSUMED contracts (true per cone type by inspection of the symmetric cones:
+    // NN margin = min z_i, shift adds alpha to every entry; SOC margin = z_0 - |z_1..|, shift adds alpha to z_0):
+    pub uninterp spec fn margin(&self, z: Seq<F>, pd: PrimalOrDualCone) -> real;
+    #[verifier::external_body]
+    pub fn margins(&mut self, z: &mut [F], pd: PrimalOrDualCone) -> (r: (F, F))
+        ensures r.0.v() == old(self).margin(old(z)@, pd), r.1.v() >= 0real, final(z)@ == old(z)@, *final(self) == *old(self),
+    { unimplemented!() }
+    #[verifier::external_body]
+    pub fn scaled_unit_shift(&self, z: &mut [F], alpha: F, pd: PrimalOrDualCone)
+        ensures final(z)@.len() == old(z)@.len(), self.margin(final(z)@, pd) == self.margin(old(z)@, pd) + alpha.v(),
+    { unimplemented!() }
+    #[verifier::external_body]
+    pub fn degree(&self) -> (r: usize) ensures r > 0 { unimplemented!() }
 }
+impl AsFloatT for usize { #[verifier::external_body] fn as_T(&self) -> (r: F) ensures r == f_from_usize(*self) { unimplemented!() } }
+//@enum file=src/solver/core/cones/mod.rs name=PrimalOrDualCone rules=R12 derive="PartialEq, Eq, Clone, Copy, Structural"
+
+//@fn file=src/solver/implementations/default/variables.rs name=_shift_to_cone_interior rules=R1
+//@contract
+    ensures
+        // C15 (initialisation): whatever z was, it ends up strictly inside the cone, with margin at least one
+        final(z)@.len() == old(z)@.len(), final(cones).margin(final(z)@, pd) >= 1real,
+//@pre
+    broadcast use real_arith;
+//@end
 pub trait Settings { fn core(&self) -> &CoreSettings<F>; }
 impl Settings for DefaultSettings<F> {
 //@fn file=src/solver/implementations/default/settings.rs in="Settings<T> for DefaultSettings<T>" name=core rules=R1 ret=r
